@@ -71,7 +71,7 @@ Section Deposit.
     - pose proof (find_pubkey_lt' _ _ _ Hfind) as Hi. apply N.ltb_lt in Hi. rewrite Hi.
       apply N.ltb_lt in Hi. assert (Hib : i < N.of_nat (length (balances st))) by (rewrite (rr_bals st Hroom); exact Hi).
       destruct (nthN_lt_Some _ _ Hib) as [x Hx].
-      assert (Hxb : x < 2 ^ 63) by (apply Hbal; unfold nthN in Hx; eapply nth_error_In; exact Hx).
+      assert (Hxb : x < 2 ^ 63) by (apply Hbal; rewrite nthN_eq in Hx; eapply nth_error_In; exact Hx).
       change (2 ^ 63) with 9223372036854775808 in *.
       unfold go_increase_balance. rewrite Hx, add64_small by (unfold two64; lia).
       rewrite (setN_updN (balances st) i (fun b => b + vuint (vfield (vfield dep 1) 2)) x Hx). cbn [bind]. reflexivity.
